@@ -185,6 +185,22 @@ func c19Check(c *GCase, r *core.Rec) {
 	if !equalAdj(df1, dfKeep) {
 		r.Fail("DomFrontier-retained", "graph %v root %d: the frontier table reads %v after later calls, it was %v", adj, c.Root, df1, dfKeep)
 	}
+	// History: a second graph of the same size (every edge u->v replaced by u->(v+1) mod n)
+	// is analysed right after this one; its dominators are its own.
+	if n >= 2 {
+		adj2 := make([][]int, n)
+		for u, a := range adj {
+			for _, v := range a {
+				adj2[u] = append(adj2[u], (v+1)%n)
+			}
+		}
+		want2, _, _ := refIDom(adj2, c.Root)
+		g2 := graph.MakeBiGraph(graph.IntGraph(copyAdj(adj2)))
+		if got2 := graphalg.IDom(g2, c.Root); !equalInts(got2, want2) {
+			r.Fail("IDom-second-graph", "IDom(%v, root %d)=%v right after analysing %v; definition gives %v", adj2, c.Root, got2, adj, want2)
+		}
+		r.Trans(1)
+	}
 }
 
 func c19Run(c *core.Ctx) {
